@@ -55,8 +55,6 @@ Fixpoint inode_eqb (a b : inode) : bool :=
   | _, _ => false
   end.
 
-Definition expected (cfg : wconfig) (evs : list wevent) : option enode :=
-  expected_tree (cfg_schema_location cfg) (cfg_no_ns_schema_location cfg) evs.
 Definition says_opt (cfg : wconfig) (evs : list wevent) (t : inode) : bool :=
   match expected cfg evs with Some e => doc_says e t | None => true end.
 
